@@ -5,13 +5,13 @@ import (
 	"fmt"
 	"os"
 	"regexp"
+	"sort"
 	"strings"
 	"sync/atomic"
 	"time"
 
 	"verifharness/internal/ev"
 	"verifharness/internal/node"
-	"verifharness/internal/snap"
 	"verifharness/internal/tlc"
 )
 
@@ -20,14 +20,16 @@ func init() { checks["C03"] = checkC03 }
 type persistModel struct {
 	States, Trans int64
 	WriteTable    map[string][]string
+	MutSchedule   []int // which of the consecutive mutation-id allocations after initMutationID persist the MUT key (stride 100)
 }
 
-// modelCheckPersist runs TLC on DvidPersist (crash anywhere, restart anywhere) and returns
-// the store-write table the specification prescribes per request.
-func modelCheckPersist(c *Ctx) persistModel {
-	cfg := fmt.Sprintf("SPECIFICATION Spec\nCONSTANTS\n  MaxVersions = %d\n  MaxRepos = %d\n  MaxInsts = 1\n  MaxMut = 4\n  Stride = 2\n  MaxCrashes = 2\nINVARIANTS Inv_C04_StartupSucceeds Inv_C04_Recoverable Inv_C12_CountersAhead EmitWriteTable\nPROPERTIES Act_C03_RestartIsStutter\nCHECK_DEADLOCK FALSE\n",
-		c.pick(3, 4), c.pick(1, 2))
-	r := c.MustModelCheck(tlc.Opts{Module: "DvidPersist_mc", Config: "gen_persist.cfg",
+func persistCfg(versions, repos, insts, mut, crashes, admin int) string {
+	return fmt.Sprintf("SPECIFICATION Spec\nCONSTANTS\n  MaxVersions = %d\n  MaxRepos = %d\n  MaxInsts = %d\n  MaxMut = %d\n  Stride = 2\n  MaxCrashes = %d\n  MaxAdmin = %d\nINVARIANTS Inv_C04_StartupSucceeds Inv_C04_Recoverable Inv_C12_CountersAhead Inv_C03_FreedUUIDsStayFree EmitWriteTable\nPROPERTIES Act_C03_RestartIsStutter\nCHECK_DEADLOCK FALSE\n",
+		versions, repos, insts, mut, crashes, admin)
+}
+
+func runPersist(c *Ctx, cfg string, workers int) persistModel {
+	r := c.MustModelCheck(tlc.Opts{Module: "DvidPersist_mc", Config: "gen_persist.cfg", Workers: workers,
 		Files: map[string][]byte{"gen_persist.cfg": []byte(cfg)}, Timeout: 30 * time.Minute, HeapGB: 16})
 	pm := persistModel{States: r.Distinct, Trans: r.Generated}
 	PrintedJSON(r.Output, func(raw []byte) {
@@ -35,16 +37,41 @@ func modelCheckPersist(c *Ctx) persistModel {
 		if json.Unmarshal(raw, &t) == nil && len(t["newrepo"]) > 0 {
 			pm.WriteTable = t
 		}
+		var ms struct {
+			Mutschedule []int `json:"mutschedule"`
+		}
+		if json.Unmarshal(raw, &ms) == nil && len(ms.Mutschedule) > 0 {
+			pm.MutSchedule = ms.Mutschedule
+		}
 	})
-	if pm.WriteTable == nil {
+	if pm.WriteTable == nil || pm.MutSchedule == nil {
 		infra("DvidPersist emitted no write table")
 	}
 	return pm
 }
 
+// modelCheckPersist runs TLC on DvidPersist (crash anywhere, restart anywhere) and returns
+// the store-write table the specification prescribes per request.  (Configuration of C04 / C12:
+// the requests of the original model, two crashes.)
+func modelCheckPersist(c *Ctx) persistModel {
+	return runPersist(c, persistCfg(c.pick(3, 4), c.pick(1, 2), 1, 4, 2, 0), 0)
+}
+
+// modelCheckPersistAdmin: the configurations with the administrative requests (deleterepo,
+// hide-branch, make-master, rename, deletedata, tag, caller-assigned UUIDs): one repo with three
+// (four) versions, and two repos (deleterepo followed by a new repo that re-uses the freed UUID).
+func modelCheckPersistAdmin(c *Ctx) persistModel {
+	a := runPersist(c, persistCfg(c.pick(3, 4), 1, 1, 2, c.pick(1, 2), 2), 4)
+	b := runPersist(c, persistCfg(2, 2, 1, 2, c.pick(1, 2), 2), 4)
+	a.States += b.States
+	a.Trans += b.Trans
+	return a
+}
+
 // metadataWrites extracts the metadata write classes from a crashkv trace.
 func metadataWrites(raw json.RawMessage) []string {
 	var evs []struct {
+		Op    string `json:"op"`
 		Class string `json:"class"`
 	}
 	json.Unmarshal(raw, &evs)
@@ -52,7 +79,11 @@ func metadataWrites(raw json.RawMessage) []string {
 	for _, e := range evs {
 		switch e.Class {
 		case "R2U", "V2U", "IDS", "REPO", "MUT", "FMT":
-			out = append(out, e.Class)
+			if e.Op == "Delete" {
+				out = append(out, "DEL-"+e.Class)
+			} else {
+				out = append(out, e.Class)
+			}
 		}
 	}
 	return out
@@ -61,11 +92,13 @@ func metadataWrites(raw json.RawMessage) []string {
 // checkWriteConformance executes each request kind with the write trace on and compares
 // the sequence of metadata writes with the specification's program for that request.
 func checkWriteConformance(c *Ctx, run *ev.Run, prop string, table map[string][]string) int {
+	return checkWriteConformanceX(c, run, prop, persistModel{WriteTable: table})
+}
+
+func checkWriteConformanceX(c *Ctx, run *ev.Run, prop string, pm persistModel) int {
+	table := pm.WriteTable
 	n := c.StartNode(node.Config{})
 	defer c.DropNode(n)
-	type stepT struct {
-		kind, method, url, body string
-	}
 	var root, child, child2 string
 	do := func(kind, method, url, body string) (node.Resp, []string) {
 		n.WTrace(true)
@@ -75,9 +108,30 @@ func checkWriteConformance(c *Ctx, run *ev.Run, prop string, table map[string][]
 		must(err, "wtrace")
 		return r, metadataWrites(raw)
 	}
+	// a package-level entry point (the RPC commands call exactly these); settle waits for the
+	// part of the request that runs after its acknowledgement
+	call := func(kind, fn string, args interface{}, settle func()) (int, []string) {
+		n.WTrace(true)
+		err := n.Call(fn, args, nil)
+		if err != nil && !n.Alive() {
+			must(err, kind)
+		}
+		if settle != nil {
+			settle()
+		}
+		raw, werr := n.WTrace(false)
+		must(werr, "wtrace")
+		if err != nil {
+			return 400, metadataWrites(raw)
+		}
+		return 200, metadataWrites(raw)
+	}
 	checked := 0
 	cmp := func(kind string, got []string, status int) {
-		want := table[kind]
+		want, known := table[kind]
+		if !known {
+			return // (a caller with the table of an older model)
+		}
 		checked++
 		run.Eval("writes|" + kind)
 		if status != 200 || strings.Join(got, ",") != strings.Join(want, ",") {
@@ -108,6 +162,76 @@ func checkWriteConformance(c *Ctx, run *ev.Run, prop string, table map[string][]
 	cmp("commit", w, r.Status)
 	r, w = do("merge", "POST", "/api/repo/"+root+"/merge", fmt.Sprintf(`{"mergeType":"conflict-free","parents":[%q,%q]}`, child, child2))
 	cmp("merge", w, r.Status)
+	if _, grown := table["deleterepo"]; !grown {
+		return checked
+	}
+	// ---- the request kinds added with the growth of C03 (C03-3, C03-7) ----
+	r, w = do("newversion_assigned", "POST", "/api/node/"+root+"/branch", `{"branch":"b2","uuid":"0123456789abcdef0123456789abcdef"}`)
+	cmp("newversion_assigned", w, r.Status)
+	r, w = do("tag", "POST", "/api/node/"+root+"/tag", `{"tag":"tagged1","note":"t"}`)
+	cmp("tag", w, r.Status)
+	st, w := call("rename", "ds.rename", map[string]string{"UUID": root, "Old": "kv", "New": "kv2"}, nil)
+	cmp("rename", w, st)
+	st, w = call("makemaster", "ds.makemaster", map[string]string{"UUID": child2, "OldMasterName": "oldmaster"}, nil)
+	cmp("makemaster", w, st)
+	st, w = call("hidebranch", "ds.hidebranch", map[string]string{"UUID": root, "Branch": "b2"}, nil)
+	cmp("hidebranch", w, st)
+	r, w = do("newrepo_assigned", "POST", "/api/repos", `{"alias":"y","root":"fedcba9876543210fedcba9876543210"}`)
+	cmp("newrepo_assigned", w, r.Status)
+	// start-up: the writes of loadMetadata on a store that needs no repair (one MUT per repo)
+	restartTraced := func(kind string) {
+		must(n.RestartWith(true, func(cfg *node.Config) { cfg.Env = []string{"VERIF_WTRACE=1"} }), "restart with write trace")
+		raw, err := n.WTrace(false)
+		must(err, "wtrace")
+		n.Cfg.Env = nil
+		cmp(kind, metadataWrites(raw), 200)
+	}
+	restartTraced("recover2")
+	// newMutationID: which allocations persist the MUT key (the first one follows initMutationID of the start-up)
+	if len(pm.MutSchedule) > 0 {
+		var got []int
+		for range pm.MutSchedule {
+			st, w := call("newmut", "mgr.mutids", map[string]interface{}{"UUID": root, "Name": "kv2", "N": 1}, nil)
+			bit := 0
+			if strings.Join(w, ",") == "MUT" {
+				bit = 1
+			} else if len(w) > 0 || st != 200 {
+				bit = -1
+			}
+			got = append(got, bit)
+		}
+		checked++
+		run.Eval("writes|newmut-schedule")
+		if fmt.Sprint(got) != fmt.Sprint(pm.MutSchedule) {
+			run.Violation(strings.ToLower(prop)+"-writes", map[string]interface{}{"kind": "mutation-id-persist-schedule", "request": fmt.Sprintf("%d consecutive newMutationID after start-up", len(got)),
+				"spec_persists_MUT_at": pm.MutSchedule, "observed": got})
+		}
+	}
+	st, w = call("deleterepo", "ds.deleterepo", map[string]string{"UUID": "fedcba9876543210fedcba9876543210"}, nil)
+	cmp("deleterepo", w, st)
+	restartTraced("recover1")
+	// deletedata is acknowledged before its writes: collect the trace until the goroutine has saved the repo
+	n.WTrace(true)
+	derr := n.Call("ds.deletedata", map[string]string{"UUID": root, "Name": "kv2"}, nil)
+	if derr != nil && !n.Alive() {
+		must(derr, "deletedata")
+	}
+	st, w = 200, nil
+	if derr != nil {
+		st = 400
+	}
+	for deadline := time.Now().Add(20 * time.Second); time.Now().Before(deadline); time.Sleep(2 * time.Millisecond) {
+		raw, err := n.WTrace(false) // (takes what has been traced so far; tracing stays on)
+		must(err, "wtrace")
+		w = append(w, metadataWrites(raw)...)
+		if len(w) > 0 {
+			time.Sleep(20 * time.Millisecond)
+			raw, _ = n.WTrace(false)
+			w = append(w, metadataWrites(raw)...)
+			break
+		}
+	}
+	cmp("deletedata", w, st)
 	return checked
 }
 
@@ -120,109 +244,88 @@ type c03Divergence struct {
 }
 
 const c03BranchHeads = "branch-head-after-restart"
+
 var maxRepoRe = regexp.MustCompile(`"MaxRepoLabel":\d+`)
 var nextLabelRe = regexp.MustCompile(`\{"nextlabel":\d+\}`)
 
 const c03EmptyLabelmapMax = "empty-labelmap-maxlabel-jumps-on-restart"
 
+var scFail atomic.Value
 
 func checkC03(c *Ctx) int {
 	run := ev.NewRun("C03", c.Tier, "model_checking")
 	t0 := time.Now()
 	pm := modelCheckPersist(c)
-	run.Set("states", pm.States)
-	run.Set("transitions", pm.Trans)
-	run.Set("tlc_model", "DvidPersist: every request as its program of in-memory steps and store writes; Crash between any two steps; Recover/CleanRestart; Act_C03_RestartIsStutter, Inv_C04_*, Inv_C12_CountersAhead")
-	nw := checkWriteConformance(c, run, "C03", pm.WriteTable)
+	// the configurations with the administrative requests are checked while the histories run
+	admCh := make(chan persistModel, 1)
+	go func() {
+		defer func() {
+			if e := recover(); e != nil {
+				admCh <- persistModel{States: -1, WriteTable: map[string][]string{"error": {fmt.Sprint(e)}}}
+			}
+		}()
+		admCh <- modelCheckPersistAdmin(c)
+	}()
+	nw := checkWriteConformanceX(c, run, "C03", pm)
+	tTLC := since(t0)
+	// the scripted scenarios run next to the histories
+	scCh := make(chan int, 1)
+	go func() {
+		defer func() {
+			if e := recover(); e != nil {
+				scFail.Store(fmt.Sprint(e))
+				scCh <- -1
+			}
+		}()
+		scCh <- c03Scenarios(c, run)
+	}()
 	histories := c.pick(8, 48)
 	length := c.pick(40, 60)
-	var restarts, compared int64
-	kinds := map[string]bool{}
-	parallel(histories, 8, func(_, h int) {
-		n := c.StartNode(node.Config{})
-		defer c.DropNode(n)
-		w := newWorld(n, c.Seed*1000+int64(h))
-		for i := 0; i < length; i++ {
-			kind, err := w.step()
-			must(err, "world step")
-			if kind == "" {
-				continue
-			}
-			must(n.Idle(), "idle")
-			// even histories restart after every operation; odd ones after random gaps, so that
-			// state built up over several operations in one process is compared with its rebuild
-			if h%2 == 1 && w.rng.Intn(4) != 0 && i < length-1 {
-				continue
-			}
-			before, err := snap.TakeCanon(n, w.snapOptions())
-			must(err, "snapshot before restart")
-			clean := (i+h)%2 == 0
-			must(n.Restart(clean), "restart")
-			atomic.AddInt64(&restarts, 1)
-			after, err := snap.TakeCanon(n, w.snapOptions())
-			must(err, "snapshot after restart")
-			atomic.AddInt64(&compared, int64(len(before.Entries)))
-			run.Eval(fmt.Sprintf("h%d|%d|%s", h, i, kind))
-			d := snap.Diff(before, after)
-			if len(d) > 0 && run.KnownActive(c03EmptyLabelmapMax) {
-				// known finding: a labelmap instance restarted while it holds no stored repo-wide
-				// maximum gets 10000000000 in memory (not persisted), so its max / next label answers
-				// differ across this and later restarts.  Blank exactly those fields and compare again.
-				fix := func(key, b string) string {
-					if !strings.Contains(key, "data/la") && !strings.Contains(key, "/info") {
-						return b
-					}
-					b = maxRepoRe.ReplaceAllString(b, `"MaxRepoLabel":"*"`)
-					b = nextLabelRe.ReplaceAllString(b, `{"nextlabel":"*"}`)
-					return b
-				}
-				if d2 := snap.Diff(snap.Transform(before, fix), snap.Transform(after, fix)); len(d2) == 0 {
-					run.ReportKnown(c03EmptyLabelmapMax)
-					d = nil
-				}
-			}
-			if len(d) > 0 {
-				// known finding: only uuid:branch head addresses differ
-				onlyHeads := true
-				for _, x := range d {
-					if !strings.HasPrefix(x, "head/") {
-						onlyHeads = false
-					}
-				}
-				if onlyHeads && run.KnownActive(c03BranchHeads) {
-					run.ReportKnown(c03BranchHeads)
-				} else {
-					how := "SIGKILL while idle"
-					if clean {
-						how = "clean stop"
-					}
-					run.Violation("c03", c03Divergence{Kind: "restart-changed-observable", History: w.log, AfterOp: w.describe(w.log[len(w.log)-1]), Restart: how, Diffs: d})
-					return
-				}
-			}
-			if h == 0 && i == 5 {
-				run.Sample(map[string]interface{}{"history_prefix": w.log, "restart": "after every operation (even histories) or after random gaps (odd histories), alternating clean stop / SIGKILL", "snapshot_entries": len(before.Entries)})
-			}
-		}
-		for _, op := range w.log {
-			kinds[op.Kind] = true
-			if os.Getenv("VCHECK_DEBUG") != "" && strings.HasPrefix(op.Kind, os.Getenv("VCHECK_DEBUG")) {
-				fmt.Println("DEBUG", w.describe(op), op.Body, op.Resp)
-			}
-		}
-	})
-	var kl []string
-	for k := range kinds {
-		kl = append(kl, k)
+	if os.Getenv("VERIF_C03_PART") == "scenarios" { // development aid, never used by a registered command
+		histories = 0
 	}
-	run.Set("traces_validated_against_impl", restarts+int64(nw))
-	run.Set("restarts", restarts)
-	run.Set("snapshot_entries_compared", compared)
+	st := &c03Stats{kinds: map[string]int{}, afterRestartKinds: map[string]int{}}
+	parallel(histories, 8, func(_, h int) {
+		c03History(c, run, st, h, length, true)
+	})
+	nsc := <-scCh
+	if nsc < 0 {
+		infra("scenarios: %v", scFail.Load())
+	}
+	adm := <-admCh
+	if adm.States < 0 {
+		infra("DvidPersist (administrative requests): %v", adm.WriteTable["error"])
+	}
+	pm.States += adm.States
+	pm.Trans += adm.Trans
+	run.Set("states", pm.States)
+	run.Set("transitions", pm.Trans)
+	run.Set("tlc_model", "DvidPersist: every request as its program of in-memory steps and store writes (newrepo, newversion, merge, commit, newdata, newMutationID; deleterepo, hide-branch, make-master, rename, deletedata, tag, caller-assigned UUIDs incl. ones freed by deleterepo / hide-branch); Crash between any two steps; Recover/CleanRestart; Act_C03_RestartIsStutter (projection incl. branches, instance names, known UUIDs), Inv_C03_FreedUUIDsStayFree, Inv_C04_*, Inv_C12_CountersAhead")
+	var kl, al []string
+	for k, v := range st.kinds {
+		kl = append(kl, fmt.Sprintf("%s:%d", k, v))
+	}
+	for k, v := range st.afterRestartKinds {
+		al = append(al, fmt.Sprintf("%s:%d", k, v))
+	}
+	sort.Strings(kl)
+	sort.Strings(al)
+	run.Set("traces_validated_against_impl", st.restarts+int64(nw)+st.refCompared+int64(nsc))
+	run.Set("restarts", st.restarts)
+	run.Set("snapshot_entries_compared", st.compared)
+	run.Set("reference_comparisons", st.refCompared)
+	run.Set("reference_entries_compared", st.refEntries)
 	run.Set("operation_kinds", kl)
+	run.Set("first_operation_after_a_restart", al)
 	run.Set("write_sequences_conformant", nw)
-	run.Set("rule", "case = (seeded multi-datatype history, position): after every acknowledged operation (or, in every second history, after random gaps of operations) the node is stopped (alternating clean stop and SIGKILL while idle), a new process opens the same stores, and the complete API snapshot (repos info, DAG, heads, flags, notes, logs, instances with settings/tags, every data read endpoint at every version) must equal the one taken before; the store-write sequence of every repo-level request is compared with the program DvidPersist.tla prescribes")
-	run.Assume = []string{"Badger durability across process kill (page cache survives)", "datatypes driven so far: keyvalue, roi, annotation, neuronjson, uint8blk (+labelmap in C08's restart pass)"}
-	fmt.Printf("C03: tlc %d states; %d histories x %d ops, %d restarts, %d snapshot entries compared in %.1fs; violations=%d known=%v\n",
-		pm.States, histories, length, restarts, compared, since(t0), run.Violations(), run.KnownSeen())
+	run.Set("scenarios", nsc)
+	run.Set("rule", "case = (seeded multi-datatype history, position): after every acknowledged operation (every fourth history) or after random gaps of operations the node is stopped (alternating clean stop and SIGKILL while idle), a new process opens the same stores, and the complete API snapshot (repos info, DAG, heads, flags, notes, logs, instances with settings/tags/syncs, every data read endpoint at every version incl. the label / tag views of the annotation synced to the labelmap, the counts of the labelsz synced to the annotation and the answers derived from the mutation logs) must equal the one taken before; at the middle and at the end of every history the snapshot must also equal the one of the same history executed on a node that is never restarted (identifiers canonical, mutation ids by rank); the store-write sequence of every repo-level request kind and of a start-up is compared with the program DvidPersist.tla prescribes")
+	run.Assume = []string{"Badger durability across process kill (page cache survives)", "asynchronous instance deletion is waited for before the restart (the property speaks of an idle server)"}
+	fmt.Printf("C03: tlc %d states (%.1fs incl. write conformance); %d scenarios; %d histories x %d ops, %d restarts, %d snapshot entries compared, %d comparisons with the never-restarted reference, in %.1fs; violations=%d known=%v\n",
+		pm.States, tTLC, nsc, histories, length, st.restarts, st.compared, st.refCompared, since(t0), run.Violations(), run.KnownSeen())
+	if os.Getenv("VCHECK_DEBUG") != "" {
+		fmt.Printf("C03 time summed over workers: steps %.1fs, snapshots %.1fs, restarts %.1fs, reference runs %.1fs\n",
+			float64(st.tStep)/1e9, float64(st.tSnap)/1e9, float64(st.tRestart)/1e9, float64(st.tRef)/1e9)
+	}
 	return run.Finish()
 }
